@@ -46,6 +46,8 @@ def configs(quick):
         dict(name="four_terminals", dev="cross4", currents4=[5.1, -2.3, -3.7, 0.9], adaptive=True, T=0.12),
     ]
     c.append(dict(name="pulsed_current", dev="bar", pulsed_current=True, adaptive=False, dt=1e-3, T=0.15))
+    # a sweep of the London length on one device object, screening on
+    c.append(dict(name="screening_sweep", dev="ring", lam=0.8, screening=True, sweep=True, adaptive=False, T=0.03))
     # a screened run started from a seed solution (the seed object is used twice in the worker)
     c.append(dict(name="screening_seeded", dev="ring", lam=0.5, screening=True, seeded=True, adaptive=False, T=0.04))
     if not quick:
@@ -104,6 +106,15 @@ def run(ctx, stop_first=False):
                 rp = dict(config=name, threads=t, location=l)
                 ctx.fail("not-bit-identical:same-process", f"{name} ({t} threads): repeating the run in the same process with the same input objects gives different results", rp)
                 first = first or dict(key="not-bit-identical:same-process", what="repeat differs", **rp)
+                if stop_first:
+                    return first
+                break
+        for t, l, r in rs:
+            sw = r.get("sweep")
+            if sw and (not sw["same_mesh"] or sw["swept"] != sw["fresh"]):
+                rp = dict(config=name, threads=t, location=l, same_mesh=sw["same_mesh"])
+                ctx.fail("not-bit-identical:after-sweep", f"{name} ({t} threads): the last run of a parameter sweep on one device differs from the identical simulation on a freshly built device", rp)
+                first = first or dict(key="not-bit-identical:after-sweep", what="sweep differs", **rp)
                 if stop_first:
                     return first
                 break
